@@ -648,8 +648,6 @@ def ev_closure(node, items, ctx, plus):
             ctx.tick()
             cur = work.pop()
             for s, _ in ev(body, [(cur, env)], ctx).items:
-                if len(s) != len(cur):
-                    raise Inconclusive("closure body with non-zero stack effect")
                 kk = stack_key(s)
                 if kk not in seen:
                     seen[kk] = s
